@@ -4,6 +4,7 @@ import Mathlib.Algebra.BigOperators.Group.List.Basic
 import Mathlib.Algebra.Order.BigOperators.Group.List
 import Mathlib.Data.List.Basic
 import Mathlib.Data.List.Forall2
+import Mathlib.Data.List.Nodup
 import Mathlib.Tactic.Ring
 import Mathlib.Tactic.Linarith
 /-!
@@ -327,5 +328,203 @@ instance AVal.instAddCommMonoid (D : Dom) : AddCommMonoid (AVal D) where
   add_zero := AVal.add_zero'
   add_comm := AVal.add_comm'
   nsmul := nsmulRec
+
+/-! ### enumeration of the valid vectors -/
+
+theorem nodup_flatMap_of {α β} {l : List α} {f : α → List β} (hl : l.Nodup) (hf : ∀ x ∈ l, (f x).Nodup)
+    (hd : ∀ x ∈ l, ∀ y ∈ l, ∀ b, b ∈ f x → b ∈ f y → x = y) : (l.flatMap f).Nodup := by
+  rw [List.nodup_flatMap]
+  refine ⟨hf, ?_⟩
+  refine List.Pairwise.imp_of_mem ?_ hl
+  intro a b ha hb hne x hx hy
+  exact hne (hd a ha b hb x hx hy)
+
+namespace Dom
+
+theorem mem_boxVecs (m x : List Nat) : x ∈ boxVecs m ↔ VLe x m := by
+  induction m generalizing x with
+  | nil => cases x <;> simp [boxVecs]
+  | cons b m ih =>
+    simp only [boxVecs, List.mem_flatMap, List.mem_range, List.mem_map]
+    constructor
+    · rintro ⟨v, hv, y, hy, rfl⟩
+      exact .cons (by omega) ((ih y).mp hy)
+    · intro h
+      cases h with
+      | cons h t => exact ⟨_, by omega, _, (ih _).mpr t, rfl⟩
+
+theorem nodup_boxVecs (m : List Nat) : (boxVecs m).Nodup := by
+  induction m with
+  | nil => simp [boxVecs]
+  | cons b m ih =>
+    simp only [boxVecs]
+    apply nodup_flatMap_of List.nodup_range
+    · intro v _
+      exact ih.map (fun a b h => by simpa using h)
+    · intro v _ w _ x hx hy
+      simp only [List.mem_map] at hx hy
+      obtain ⟨_, _, rfl⟩ := hx
+      obtain ⟨_, _, h⟩ := hy
+      simp at h; exact h.1.symm
+
+theorem le_sum_of_mem {x : List Nat} {a : Nat} (h : a ∈ x) : a ≤ x.sum := by
+  induction x with
+  | nil => simp at h
+  | cons b x ih =>
+    simp only [List.mem_cons] at h
+    simp only [List.sum_cons]
+    rcases h with rfl | h
+    · omega
+    · have := ih h; omega
+
+theorem VLe_replicate (x : List Nat) (K : Nat) : VLe x (List.replicate x.length K) ↔ ∀ a ∈ x, a ≤ K := by
+  induction x with
+  | nil => simp
+  | cons b x ih => simp [List.replicate_succ, ih]
+
+theorem mem_singles (K c : Nat) (x : List Nat) : x ∈ singles K c ↔ x.length = c ∧ x.sum ≤ K := by
+  simp only [singles, List.mem_filter, mem_boxVecs, decide_eq_true_eq]
+  constructor
+  · rintro ⟨h1, h2⟩
+    exact ⟨by simpa using h1.length_eq, h2⟩
+  · rintro ⟨rfl, h2⟩
+    exact ⟨(VLe_replicate x K).mpr (fun a ha => le_trans (le_sum_of_mem ha) h2), h2⟩
+
+theorem nodup_singles (K c : Nat) : (singles K c).Nodup := (nodup_boxVecs _).filter _
+
+theorem mem_vecs (D : Dom) (x : List Nat) : x ∈ D.vecs ↔ D.ok x = true := by
+  cases D with
+  | box m => rw [ok_box_iff]; exact mem_boxVecs m x
+  | tally n K c =>
+    rw [ok_tally_iff]
+    simp only [vecs, List.mem_flatMap, List.mem_range, List.mem_map, mem_singles]
+    constructor
+    · rintro ⟨t, ht, w, ⟨hw1, hw2⟩, wo, ⟨ho1, ho2⟩, rfl⟩
+      refine ⟨by simp [hw1, ho1]; omega, by simp; omega, ?_, ?_⟩
+      · simp [← hw1, hw2]
+      · rw [Nat.add_comm 1 c, List.drop_succ_cons, ← hw1, List.drop_left, hw1, ← ho1, List.take_length]
+        exact ho2
+    · rintro ⟨h1, h2, h3, h4⟩
+      cases x with
+      | nil => simp at h1; omega
+      | cons t x =>
+        simp only [List.length_cons] at h1
+        rw [Nat.add_comm 1 c, List.drop_succ_cons] at h4
+        simp only [List.drop_one, List.tail_cons, List.headD_cons, List.drop_succ_cons, List.drop_zero] at h2 h3
+        refine ⟨t, by omega, x.take c, ⟨by simp; omega, h3⟩, x.drop c, ⟨by simp; omega, ?_⟩, by simp⟩
+        rw [List.take_of_length_le (by simp; omega)] at h4
+        exact h4
+
+theorem nodup_vecs (D : Dom) : D.vecs.Nodup := by
+  cases D with
+  | box m => exact nodup_boxVecs m
+  | tally n K c =>
+    simp only [vecs]
+    apply nodup_flatMap_of List.nodup_range
+    · intro t _
+      apply nodup_flatMap_of (nodup_singles K c)
+      · intro w _
+        exact (nodup_singles K c).map (fun a b h => by simpa using h)
+      · intro w hw w' hw' x hx hy
+        simp only [List.mem_map] at hx hy
+        obtain ⟨wo, ho, rfl⟩ := hx
+        obtain ⟨wo', ho', h⟩ := hy
+        simp only [List.cons.injEq, true_and] at h
+        rw [mem_singles] at hw hw'
+        exact (List.append_inj h (hw'.1.trans hw.1.symm)).1.symm
+    · intro t _ t' _ x hx hy
+      simp only [List.mem_flatMap, List.mem_map] at hx hy
+      obtain ⟨_, _, _, _, rfl⟩ := hx
+      obtain ⟨_, _, _, _, h⟩ := hy
+      simp at h; exact h.1.symm
+
+end Dom
+
+/-! ### the enumerated domain -/
+namespace Dom
+open AVal
+
+theorem clip_injOn (D : Dom) : ∀ x ∈ D.vecs, ∀ y ∈ D.vecs, clip D x = clip D y → x = y := by
+  intro x hx y hy h
+  rw [mem_vecs] at hx hy
+  rw [clip_ok hx, clip_ok hy] at h
+  simpa using h
+
+theorem none_notMem (D : Dom) : (none : AVal D) ∉ D.vecs.map (clip D) := by
+  simp only [List.mem_map, not_exists, not_and]
+  intro x hx
+  rw [mem_vecs] at hx
+  rw [clip_ok hx]; simp
+
+theorem nodup_domain (D : Dom) : D.domain.Nodup := by
+  unfold domain
+  rw [List.nodup_append]
+  refine ⟨(nodup_vecs D).map_on (clip_injOn D), by simp, ?_⟩
+  intro a ha b hb
+  simp only [List.mem_singleton] at hb
+  subst hb
+  intro h; subst h
+  exact none_notMem D ha
+
+theorem mem_domain {D : Dom} (v : AVal D) : v ∈ D.domain := by
+  unfold domain
+  cases v with
+  | none => simp
+  | some x =>
+    apply List.mem_append_left
+    exact List.mem_map.mpr ⟨x.1, (mem_vecs D x.1).mpr x.2, clip_val x⟩
+
+theorem domain_length (D : Dom) : D.domain.length = D.vecs.length + 1 := by simp [domain]
+
+theorem index_lt {D : Dom} (v : AVal D) : D.index v < D.domain.length :=
+  List.idxOf_lt_length_iff.mpr (mem_domain v)
+
+theorem index_inj {D : Dom} (v w : AVal D) : D.index v = D.index w ↔ v = w :=
+  List.idxOf_inj (mem_domain v)
+
+theorem domain_index {D : Dom} (v : AVal D) : D.domain[D.index v]'(index_lt v) = v :=
+  List.getElem_idxOf (index_lt v)
+
+theorem index_domain {D : Dom} (i : Nat) (h : i < D.domain.length) : D.index D.domain[i] = i :=
+  (nodup_domain D).idxOf_getElem i h
+
+theorem index_none (D : Dom) : D.index (none : AVal D) = D.domain.length - 1 := by
+  unfold index domain
+  rw [List.idxOf_append_of_notMem (none_notMem D)]
+  simp
+
+theorem boxVecs_head (m : List Nat) : ∃ t, boxVecs m = List.replicate m.length 0 :: t := by
+  induction m with
+  | nil => exact ⟨[], rfl⟩
+  | cons b m ih =>
+    obtain ⟨t, ht⟩ := ih
+    simp only [boxVecs, List.range_succ_eq_map, List.flatMap_cons, ht, List.map_cons, List.cons_append,
+      List.length_cons, List.replicate_succ]
+    exact ⟨_, rfl⟩
+
+theorem singles_head (K c : Nat) : ∃ t, singles K c = List.replicate c 0 :: t := by
+  obtain ⟨t, ht⟩ := boxVecs_head (List.replicate c K)
+  simp only [List.length_replicate] at ht
+  simp only [singles, ht, List.filter_cons]
+  rw [if_pos (by simp)]
+  exact ⟨_, rfl⟩
+
+theorem vecs_head (D : Dom) : ∃ t, D.vecs = D.zeroVec :: t := by
+  cases D with
+  | box m => exact boxVecs_head m
+  | tally n K c =>
+    obtain ⟨t, ht⟩ := singles_head K c
+    simp only [vecs, List.range_succ_eq_map, List.flatMap_cons, ht, List.map_cons, List.cons_append, zeroVec, dim]
+    rw [Nat.add_comm 1, List.replicate_succ, Nat.two_mul, List.replicate_add]
+    exact ⟨_, rfl⟩
+
+theorem index_zero (D : Dom) : D.index (AVal.zero D) = 0 := by
+  obtain ⟨t, ht⟩ := vecs_head D
+  unfold index domain
+  rw [ht]
+  simp [AVal.zero]
+
+end Dom
+
 
 end Ds
